@@ -214,6 +214,10 @@ def nullDispatched (cmds : List Cmd) (us : List UnitInfo) : List Bool :=
     | [], _, acc => acc.reverse
     | u :: rest, prev, acc =>
       if u.header.isEmpty then go rest prev (false :: acc)
+      -- a unit refused for its syntax (invalid character: -101, data list ending in a separator: -103) is refused before its
+      -- header is composed or looked up: it does not become the reference of the next relative header (C02 speaks about
+      -- well-formed messages only; this follows what SCPI_Parse does, so that C05's judge demands nothing about it)
+      else if !u.wellFormed ∨ u.nParams < 0 then go rest prev (false :: acc)
       else
         let eff := effective prev u.header
         match dispatch patList eff with
